@@ -502,3 +502,9 @@ PROPS["C04"]["rule"] += "; references are also obtained through iterators (begin
 PROPS["C02"]["rule"] += "; a writer with a byte budget (count = bytes it accepted, stored bytes = that prefix); unbound sources (serialize as null, measure agrees)"
 PROPS["C08"]["rule"] += "; a writer with a byte budget; unbound source"
 PROPS["C15"]["rule"] += "; the limit is given before or after the filter, or left out when it equals the configured default; row misc1 (DEFAULT_NESTING_LIMIT=4)"
+PROPS["C11"]["quick"]["configs"] = PROPS["C11"]["quick"]["configs"] + ["num01"]
+PROPS["C11"]["quick"]["per_config"]["num01"] = {"cases": 200000}
+PROPS["C11"]["thorough"]["configs"] = PROPS["C11"]["thorough"]["configs"] + ["num01"]
+PROPS["C11"]["thorough"]["per_config"]["num01"] = {"cases": 2000000}
+PROPS["C11"]["rule"] += "; row num01 (JsonFloat = float: skipped float64 items must still be skipped whole)"
+PROPS["C13"]["rule"] += "; float-class numeric strings: zero stays zero and values inside [1e-300,1e300] convert to a finite double within 1e-6 (their exact accuracy is C12's)"
